@@ -25,7 +25,8 @@ def supplied(rid):
 
 
 def absent_id(rid):
-    return z3.Or(V.is_none(rid), rid == V.S(""))
+    """no usable id was supplied: None, the empty string, or False (a boolean is not a number)"""
+    return z3.Or(V.is_none(rid), rid == V.S(""), rid == V.B(False))
 
 
 def vfloat(x):
